@@ -36,13 +36,24 @@ fn write_translations(req: &Value) -> Value {
     let _ = std::fs::remove_dir_all(&work);
     let proj = work.join("proj");
     let out = work.join("out");
-    std::fs::create_dir_all(&proj).unwrap();
-    std::fs::write(proj.join("Cargo.toml"), req["cargo_toml"].as_str().expect("cargo_toml")).unwrap();
-    for (rel, text) in req["files"].as_object().expect("files") {
-        let p = proj.join(rel);
-        std::fs::create_dir_all(p.parent().unwrap()).unwrap();
-        std::fs::write(&p, text.as_str().expect("file text")).unwrap();
+    let put_project = |files: &serde_json::Map<String, Value>| {
+        let _ = std::fs::remove_dir_all(&proj);
+        std::fs::create_dir_all(&proj).unwrap();
+        std::fs::write(proj.join("Cargo.toml"), req["cargo_toml"].as_str().expect("cargo_toml")).unwrap();
+        for (rel, text) in files {
+            let p = proj.join(rel);
+            std::fs::create_dir_all(p.parent().unwrap()).unwrap();
+            std::fs::write(&p, text.as_str().expect("file text")).unwrap();
+        }
+    };
+    // an earlier build of the same project (other texts) into the same output directory: what a build script does on every re-run
+    if let Some(prev) = req.get("previous_files").and_then(|v| v.as_object()) {
+        put_project(prev);
+        if let Ok(infos) = TranslationsInfos::parse_at_dir(proj.clone()) {
+            let _ = infos.get_translations().write_to_dir(out.clone());
+        }
     }
+    put_project(req["files"].as_object().expect("files"));
     let res = (|| {
         let infos = match TranslationsInfos::parse_at_dir(proj.clone()) {
             Ok(i) => i,
